@@ -12,6 +12,21 @@ structure Fn where
   fn : Nat
   read : Bool
   write : Bool
+  wpart : Bool := false   -- partial write announced (`NewOperations(read, false, write, writePartial)`)
+deriving DecidableEq, Repr
+
+/-- what `Operations.Information` renders for a function: (read, read.partial, write, write.partial).
+    `possibleOperations.read` is present iff read; its `partial` tag iff readPartial, which AddFunctionType never
+    sets ("partial reads are currently not supported"); `write` is present iff write; its `partial` tag iff
+    writePartial. -/
+def Fn.info (x : Fn) : Bool × Bool × Bool × Bool := (x.read, false, x.write, x.write && x.wpart)
+
+/-- the constructor arguments of the local device that reach the wire: device address, device type and network
+    feature set (interned; feature set 0 = none given, 4 = simple) -/
+structure DevCfg where
+  addr : Nat := 0
+  dtype : Nat := 0
+  fset : Nat := 3
 deriving DecidableEq, Repr
 
 structure Feat where
@@ -29,6 +44,7 @@ structure Ent where
 deriving DecidableEq, Repr
 
 structure St where
+  dev : DevCfg := {}
   pool : Nat → Ent
   attached : List Nat := [0]
   subs : List Nat := []       -- peers subscribed to node management, in subscription order
@@ -37,21 +53,23 @@ structure St where
 /-- GetOrAddFeature sets "<type> Client" / "<type> Server" / "<type>" as description -/
 def descrOf (typ role : Nat) : Nat := 1 + 3 * typ + role
 
-/-- the functions NewNodeManagement registers (feature set ≠ simple); codes 100.. are node-management functions -/
-def nmFns : List Fn :=
-  [⟨100, true, false⟩, ⟨101, true, false⟩, ⟨102, true, false⟩, ⟨103, false, false⟩, ⟨104, false, false⟩,
-   ⟨105, true, false⟩, ⟨106, false, false⟩, ⟨107, false, false⟩, ⟨108, true, false⟩]
+/-- the functions NewNodeManagement registers; codes 100.. are node-management functions; the destination list (108)
+    is registered only if a feature set is given and it is not `simple` -/
+def nmFns (fset : Nat) : List Fn :=
+  [⟨100, true, false, false⟩, ⟨101, true, false, false⟩, ⟨102, true, false, false⟩, ⟨103, false, false, false⟩,
+   ⟨104, false, false, false⟩, ⟨105, true, false, false⟩, ⟨106, false, false, false⟩, ⟨107, false, false, false⟩] ++
+  (if fset = 0 ∨ fset = 4 then [] else [⟨108, true, false, false⟩])
 
 def nmType : Nat := 90
 def dcType : Nat := 91
 
 /-- addDeviceInformation: entity [0] with NodeManagement (feature 0, special) and DeviceClassification (feature 1,
     server, manufacturer data readable); its feature numbers start at 0 -/
-def devInfo : Ent :=
+def devInfo (cfg : DevCfg) : Ent :=
   { etype := 0, nextId := 2,
-    feats := [⟨0, nmType, 2, 0, nmFns⟩, ⟨1, dcType, 1, 0, [⟨109, true, false⟩]⟩] }
+    feats := [⟨0, nmType, 2, 0, nmFns cfg.fset⟩, ⟨1, dcType, 1, 0, [⟨109, true, false, false⟩]⟩] }
 
-def init : St := { pool := fun k => if k = 0 then devInfo else {} }
+def init (cfg : DevCfg) : St := { dev := cfg, pool := fun k => if k = 0 then devInfo cfg else {} }
 
 def upd (pool : Nat → Ent) (k : Nat) (e : Ent) : Nat → Ent := fun j => if j = k then e else pool j
 
@@ -66,11 +84,13 @@ def entGetOrAdd (e : Ent) (typ role : Nat) : Ent × Nat :=
   | some f => (e, f.id)
   | none => ({ e with nextId := e.nextId + 1, feats := e.feats ++ [⟨e.nextId, typ, role, descrOf typ role, []⟩] }, e.nextId)
 
-/-- AddFunctionType: ignored for client features and for a function that is already registered (first wins) -/
-def featAddFn (f : Feat) (fn : Nat) (r w : Bool) : Feat :=
+/-- AddFunctionType: ignored for client features and for a function that is already registered (first wins);
+    partial write is announced only if write is and the function's data type supports partial updates on this
+    feature (`cap` = the function is in the feature type's factory table and its payload implements `Updater`) -/
+def featAddFn (f : Feat) (fn : Nat) (r w cap : Bool) : Feat :=
   if f.role = 0 then f
   else if f.fns.any (·.fn = fn) then f
-  else { f with fns := f.fns ++ [⟨fn, r, w⟩] }
+  else { f with fns := f.fns ++ [⟨fn, r, w, w && cap⟩] }
 
 /-- apply g to the first feature with that number (FeatureOfAddress returns the first match) -/
 def updFeat : List Feat → Nat → (Feat → Feat) → List Feat
@@ -82,7 +102,8 @@ def updFeat : List Feat → Nat → (Feat → Feat) → List Feat
 inductive Obs
   | notify (p : Nat) (added : Bool) (k etype : Nat) (feats : List Feat)   -- partial detailed-discovery notify
   | ucNotify (p : Nat)                                                      -- use-case data notify
-  | reply (p : Nat) (ents : List (Nat × Nat)) (feats : List (Nat × Feat))   -- detailed-discovery reply
+  | reply (p : Nat) (dev : DevCfg) (ents : List (Nat × Nat)) (feats : List (Nat × Feat))   -- detailed-discovery reply
+  | destList (p : Nat) (entries : List DevCfg)                             -- destination-list reply
   | ret (id : Nat)
 deriving DecidableEq, Repr
 
@@ -90,7 +111,8 @@ deriving DecidableEq, Repr
 def peerOf : Obs → Option Nat
   | .notify q _ _ _ _ => some q
   | .ucNotify q => some q
-  | .reply q _ _ => some q
+  | .reply q _ _ _ => some q
+  | .destList q _ => some q
   | .ret _ => none
 
 /-- What actually arrives when the connections of the peers in `failing` cannot be written to (their `Sender`
@@ -109,6 +131,10 @@ def replyFeats (s : St) : List (Nat × Feat) := s.attached.flatMap fun k => (s.p
 def resolve (s : St) (k id : Nat) : Option Feat :=
   if k ∈ s.attached then (s.pool k).feats.find? (·.id = id) else none
 
+/-- processReadDestinationListData: one entry, the local device's own `DestinationData()` — device address, device
+    type and feature set as given to the constructor; filters of the read are ignored -/
+def destEntries (s : St) : List DevCfg := [s.dev]
+
 def notifyAll (s : St) (added : Bool) (k : Nat) : List Obs :=
   s.subs.map fun p => .notify p added k (s.pool k).etype (if added then (s.pool k).feats else [])
 
@@ -122,12 +148,15 @@ inductive Op
   | renew (k et : Nat)                       -- NewEntityLocal for slot k (a fresh object, fresh numbering)
   | feat (k typ role : Nat)                  -- GetOrAddFeature
   | nextId (k : Nat)                         -- NextFeatureId
-  | addFn (k fid fn : Nat) (r w : Bool)      -- AddFunctionType on the feature FeatureOfAddress(fid) returns
+  | addFn (k fid fn : Nat) (r w cap : Bool)  -- AddFunctionType on the feature FeatureOfAddress(fid) returns
+                                             --   (cap: the function's data supports partial updates on that feature)
   | setDescr (k fid d : Nat)                 -- SetDescriptionString
   | sub (p : Nat)                            -- peer p subscribes to node management
   | unsub (p : Nat)
   | addUc (k : Nat)                          -- some AddUseCaseSupport on entity k (sets use-case data)
   | read (p : Nat)                           -- peer p reads nodeManagementDetailedDiscoveryData
+  | destRead (p : Nat) (known : Bool)        -- peer p reads nodeManagementDestinationListData (with or without a
+                                             --   filter); known = the datagram's source is a feature p announced
 deriving DecidableEq, Repr
 
 def step (s : St) : Op → St × List Obs
@@ -141,23 +170,24 @@ def step (s : St) : Op → St × List Obs
     ({ s with pool := upd s.pool k e }, [.ret id])
   | .nextId k =>
     ({ s with pool := upd s.pool k { s.pool k with nextId := (s.pool k).nextId + 1 } }, [.ret (s.pool k).nextId])
-  | .addFn k fid fn r w =>
-    ({ s with pool := upd s.pool k { s.pool k with feats := updFeat (s.pool k).feats fid fun f => featAddFn f fn r w } }, [])
+  | .addFn k fid fn r w cap =>
+    ({ s with pool := upd s.pool k { s.pool k with feats := updFeat (s.pool k).feats fid fun f => featAddFn f fn r w cap } }, [])
   | .setDescr k fid d =>
     ({ s with pool := upd s.pool k { s.pool k with feats := updFeat (s.pool k).feats fid fun f => { f with descr := d } } }, [])
   | .sub p => (if p ∈ s.subs then s else { s with subs := s.subs ++ [p] }, [])
   | .unsub p => ({ s with subs := s.subs.filter (· ≠ p) }, [])
   | .addUc _ => ({ s with ucData := true }, ucNotifyAll s)
-  | .read p => (s, [.reply p (replyEnts s) (replyFeats s)])
+  | .read p => (s, [.reply p s.dev (replyEnts s) (replyFeats s)])
+  | .destRead p known => (s, if known then [.destList p (destEntries s)] else [])
 
-def run (ops : List Op) : St := ops.foldl (fun s o => (step s o).1) init
+def run (cfg : DevCfg) (ops : List Op) : St := ops.foldl (fun s o => (step s o).1) (init cfg)
 
 /-- A detailed-discovery read of peer p that has taken the entity list and is rendering it while the application
     performs `o` (an AddEntity or RemoveEntity). `Entities()` hands out the slice header, AddEntity appends behind
     it and RemoveEntity builds a new slice, neither touches the features: the reply is the reply of the state before
     `o`; the notifications of `o` go out as usual. -/
 def heldRead (s : St) (p : Nat) (o : Op) : St × List Obs :=
-  ((step s o).1, .reply p (replyEnts s) (replyFeats s) :: (step s o).2)
+  ((step s o).1, .reply p s.dev (replyEnts s) (replyFeats s) :: (step s o).2)
 
 /-- the domain of the property: an entity is added only while it is not part of the device (entity addresses in the
     device are distinct), a fresh object replaces a slot only while detached, entity [0] is left alone -/
